@@ -32,6 +32,9 @@ CLAIMED = {
  "C07": ("exploration", "bounded-exhaustive path enumeration over tagged nested data + literal sweeps + proptest guided walks against a reference lookup",
          "All paths of <=3 steps from 9 bases over a 43-step pool (dot/bracket keys, every literal index -7..6, indices through variables and nested paths, special names, colliding own keys) over data whose leaves are distinct tagged strings; integer literals at the 64-bit boundaries and a log sweep, decimals, strings in both quote styles. Oracle: reference step-by-step lookup: Ok(value) or Err.",
          "Printing objects, integer-looking strings as array indices and .size of non-ASCII strings are not compared.", "4.7"),
+ "C04": ("exploration", "bounded-exhaustive program enumeration over a two-name alphabet with lookup probes everywhere + proptest deeper programs against a reference interpreter; caller data deep-compared",
+         "Every program of <=2 statements (thorough <=3) from 62 statement forms x 9 caller bindings, with a non-failing probe of every name (distinguishing object-with-member from scalar bindings) before/after every statement and inside bodies and the included partial; random programs to depth 4 with loop variables named like data. Oracle: reference interpreter with explicit layer order; the caller's Object is compared after each render.",
+         "Reference interpreter trusted. Non-triviality (same name bound in >=2 layers) is measured by the interpreter per layer pair and reported in evidence.", "4.4"),
 }
 
 NOT_YET = {
